@@ -255,7 +255,7 @@ struct Qp { o: char, v: char, c: char, maximize: bool, nvars: usize, q0: Vec<(us
 fn render_qp(q: &Qp, comments: bool) -> String {
     let mut s = String::new();
     let cm = |t: &str| if comments { format!(" # {t}") } else { String::new() };
-    if comments { s.push_str("! generated file\n\n"); }
+    if comments { s.push_str("! generated file\n\n  \n"); }
     s.push_str(&format!("QP_TEST{}\n", if comments { " trailing words" } else { "" }));
     s.push_str(&format!("{}{}{}{}\n", q.o, q.v, q.c, cm("problem type")));
     s.push_str(&format!("{}{}\n", if q.maximize { "maximize" } else { "minimize" }, cm("sense")));
@@ -271,7 +271,7 @@ fn render_qp(q: &Qp, comments: bool) -> String {
         if q.c != 'L' { s.push_str(&format!("{}\n", q.qi.len())); for (m, i, j, v) in &q.qi { s.push_str(&format!("{} {} {} {v}\n", m + 1, i + 1, j + 1)); } }
         s.push_str(&format!("{}\n", q.bi.len())); for (m, i, v) in &q.bi { s.push_str(&format!("{} {} {v}\n", m + 1, i + 1)); }
     }
-    if comments { s.push_str("% another comment style\n"); }
+    if comments { s.push_str("% another comment style\n   \n\t\n"); }   // and blank lines made of spaces / a tab
     s.push_str(&format!("{}{}\n", q.inf, cm("infinity")));
     let list = |s: &mut String, vals: &Vec<f64>, default: f64| { s.push_str(&format!("{default}\n")); let nd: Vec<(usize, f64)> = vals.iter().cloned().enumerate().filter(|(_, v)| *v != default).collect(); s.push_str(&format!("{}\n", nd.len())); for (i, v) in nd { s.push_str(&format!("{} {v}\n", i + 1)); } };
     if has_c { list(&mut s, &q.cl, -q.inf); list(&mut s, &q.cu, q.inf); }
